@@ -3,15 +3,13 @@ import reghist as rh
 
 PARTIAL = [
     'reading PIL text (read_pil) is not part of the histories',
-    'CompOK is proved under two guards that the faithful model shows to be necessary: no explicit length 0 and class defaults different from 0 (op_guard, consts_nonzero), and the pair is {x, x*} with x itself unstarred',
-    "~d is never refused (C04_invert_never_refused) for positive lengths and names with an unstarred, non-empty base; the unguarded statement is refuted for negative lengths (C04_invert_refused_for_negative_length: DomainS('a', -3); ~a raises ValueError); the name '*' (empty base, never creatable) stays outside",
+    'CompOK is proved for every reachable state without any guard on lengths or class constants (explicit, default, zero and negative lengths included, since the repair of `elif length and` / len() in DomainS.identifiers); the pair is {x, x*} with x itself unstarred, which the faithful model shows to be necessary',
+    "~d is never refused (C04_invert_never_refused) for every length and names with an unstarred, non-empty base; the name '*' (empty base, never creatable) stays outside",
     'the recursion fuel: proved that fuel k+3 suffices for k trailing stars (C04_no_fuel) and that the fuel 8 of `step` suffices for names with at most 5 trailing stars (C04_fuel_suffices); names with 6 or more trailing stars make the model answer OutOfFuel, which the harness counts as a disagreement (generators use at most 2)',
-    'len() of a length above sys.maxsize (OverflowError) is not modelled',
+    'the query len(d) for a length above sys.maxsize (OverflowError) is not modelled (DomainS.identifiers itself reads the attribute `length` and no longer calls len())',
 ]
 REFUTED = [
-    "C04_CompOK_refuted_for_zero_length: DomainS('a*', 5); DomainS('a', 0) leaves a and a* live with lengths 0 and 5 (replayed on the implementation: both live, ~a raises SingletonError)",
     "C04_CompOK_refuted_for_double_star: DomainS('a**', 7); DomainS('a*', 5) leaves a** and its complement a* live with lengths 7 and 5 (replayed on the implementation; the other creation order is refused)",
-    "C04_invert_refused_for_negative_length: DomainS('a', -3); ~a raises ValueError (replayed on the implementation)",
 ]
 
 
@@ -21,6 +19,9 @@ def batches(ctx):
     # (i) small scope: every history of the given depth over {a, a*} x lengths x {construct, name-only, ~, drop}
     a1 = rh.dom_alphabet(rh.D, names=("a", "a*"), lengths=(None, 5, 9), dtypes=(None,), invs=((0, 1), (1, 0)))
     out.append(("DomainS/exhaustive-depth-4", rh.all_histories(a1, 4), 3, [rh.D]))
+    # zero and negative lengths are lengths like any other (repaired `elif length and` / len() in identifiers)
+    az = rh.dom_alphabet(rh.D, names=("a", "a*"), lengths=(None, 0, 5, -2), dtypes=(None,), invs=((0, 1), (1, 0)))
+    out.append(("DomainS/zero-negative-exhaustive-depth-3", rh.all_histories(az, 3), 3, [rh.D]))
     if not quick:
         a0 = rh.dom_alphabet(rh.D, names=("a", "a*"), lengths=(None, 5, 9), dtypes=(None,), slots=(0,), invs=((0, 1), (1, 0)))
         a0 += [rh.drop(1), rh.dom(1, rh.D, "a*", None), rh.dom(1, rh.D, "a", 9), rh.dom(1, rh.D, "a*", 5)]
@@ -58,7 +59,7 @@ def domain_history(rng, length):
 
 
 RULE = ("every history of depth 4 over construct{a,a*}x{no length,5,9}, name-only, ~, drop on two slots of DomainS "
-        "(thorough: also depth 5 over a 13-letter alphabet); every history of depth 3/4 over names x lengths x dtypes on DomB (changed class constants); "
+        "(thorough: also depth 5 over a 13-letter alphabet); every history of depth 3 over the same operations with lengths {none,0,5,-2}; every history of depth 3/4 over names x lengths x dtypes on DomB (changed class constants); "
         "random histories of length 40/100 over six domain classes (subclasses, failing constructors), larger name "
         "alphabet, zero/negative lengths, empty/odd names and dtypes; compared after every step: outcome, existing, "
         "slot identities, both registries (private dicts and show_singletons), attributes, ID counters, weakref liveness; "
@@ -66,15 +67,14 @@ RULE = ("every history of depth 4 over construct{a,a*}x{no length,5,9}, name-onl
 
 
 WITNESSES = {
-    "C04_CompOK_refuted_for_zero_length": [rh.dom(0, rh.D, "a*", 5), rh.dom(1, rh.D, "a", 0)],
     "C04_CompOK_refuted_for_double_star": [rh.dom(0, rh.D, "a**", 7), rh.dom(1, rh.D, "a*", 5)],
 }
 
 
 def run(ctx):
-    # the witnesses of the two refuted statements, replayed on the implementation (information only:
-    # the statements are outside the guards of the proved theorem; the integrator decides whether they
-    # are recorded as findings)
+    # the witness of the refuted statement, replayed on the implementation (information only:
+    # the statement is outside the guard of the proved theorem; the integrator decides whether it
+    # is recorded as a finding)
     rep = {}
     for name, ops in WITNESSES.items():
         out = rh.run_oracle("c04.py", {"histories": [{"ops": ops, "nslots": 2}], "deep": True})
